@@ -17,6 +17,7 @@ from prog import decode_step, run_history, cfg_classes, ev_json
 from sandbox import default_cfg
 from world import World
 import c10
+import cfuzz
 
 PID = "C09"
 LEVEL = "fault_enumeration"
@@ -33,7 +34,11 @@ RULE = ("Three generators per Hypothesis case. (A1, loader) a seed content file 
         "commands exit != 0 and change nothing; after a kill every configured copy equals the complete old or the complete new file; "
         "in the trace each rename(tmp -> final) follows that file's last write, an fsync and a complete read-back; after a successful "
         "command all copies are identical and no .tmp is left. Non-trivial: a mutation that really changes the file / a kill inside the "
-        "save sequence; distinct = (seed file hash, mutation) or (case hash, k).")
+        "save sequence; distinct = (seed file hash, mutation) or (case hash, k). (A3, coverage-guided) after the Hypothesis cases, a "
+        "libFuzzer campaign (native/content_fuzz.c: the tree's state_read in-process, ASan+UBSan, 16 forked jobs, 30 s quick / 15 min "
+        "thorough) mutates content files written by the tree's own binary, with a dictionary of varint boundary encodings; oracle in the "
+        "target: a file that loads must carry the CRC-32C of its bytes (computed bit by bit in the target), every other end than the "
+        "loader's own error exits is a crash; only crash-/leak- artifacts that reproduce 3 times from the saved input count.")
 ASSUMPTIONS = [
     "a multi-byte mutation whose CRC-32C (independently computed) still matches is a legitimate acceptance (2^-32) and is exempted",
     "ASAN_OPTIONS/UBSAN_OPTIONS exitcode=99 separates sanitizer reports from the loader's own error exits; out-of-memory or timeout on "
@@ -43,7 +48,7 @@ ASSUMPTIONS = [
 
 
 def variants():
-    return ["rel", "san", "shim", "oracle", "loader_san"]
+    return ["rel", "san", "shim", "oracle", "loader_san", "content_fuzz"]
 
 
 def budget(tier):
@@ -234,11 +239,50 @@ def part_a(case, ctx, w, classes, B):
     return Outcome(ok=True, fp=fp, nontrivial=n > 0, classes=sorted(classes), sample=sample, n_eval=n + ncmd, fps=["%s:%d" % (fhash, i) for i in range(n)], inconclusive=False)
 
 
+def heal_check(case, w, classes):
+    """a secondary copy that is missing or has another size (a damaged copy) before a command that saves the state:
+    after the successful command all copies are byte-identical again"""
+    paths = w.arr.content_paths()
+    if len(paths) < 2 or not all(os.path.exists(p) for p in paths):
+        return None
+    if len(set(open(p, "rb").read() for p in paths)) != 1:
+        return None
+    sd = case["seed"]
+    j = len(paths) - 1 if (sd >> 3) & 1 else 1 + (sd >> 4) % (len(paths) - 1)
+    kind = ["missing", "half", "minus1", "empty", "plus1"][(sd >> 7) % 5]
+    hcmd, hargs = [("sync", ["-E", "-Z"]), ("scrub", ["-p", "bad"]), ("scrub", ["-p", "new"]), ("touch", []), ("sync", ["-E", "-Z"])][(sd >> 10) % 5]
+    B = open(paths[j], "rb").read()
+    if kind == "missing":
+        os.unlink(paths[j])
+    else:
+        with open(paths[j], "wb") as f:
+            f.write({"half": B[:len(B) // 2], "minus1": B[:-1], "empty": b"", "plus1": B + b"\0"}[kind])
+    r = w.cmd(hcmd, hargs)
+    if r.timed_out:
+        return None
+    classes.add("heal: copy %s before %s" % (kind, hcmd))
+    if r.rc != 0:
+        # repair by hand and go on
+        for p in paths:
+            if p != paths[0]:
+                shutil.copyfile(paths[0], p)
+        return None
+    cur = [open(p, "rb").read() if os.path.exists(p) else None for p in paths]
+    if len(set(cur)) != 1:
+        bad = [os.path.relpath(p, w.arr.root) for p, c in zip(paths, cur) if c != cur[0]]
+        return ("content copy %d of %d was %s before a successful '%s %s'; after it the copies are not identical (%s differ from the first: %s)" %
+                (j + 1, len(paths), kind, hcmd, " ".join(hargs), ", ".join(bad), ["missing" if c is None else "%d bytes" % len(c) for c in cur]))
+    return None
+
+
 def part_b(case, ctx, w, classes):
     thorough = ctx.tier == "thorough"
     cmd = case["bcmd"]
     clock = 1800000000
     env0 = {"CLOCK": clock, "URANDOM": case["seed"] % 1000}
+    why = heal_check(case, w, classes)
+    if why:
+        return Outcome(ok=False, why=why)
     if cmd == "sync":
         # a metadata-only change: a new empty file and a time-stamp change
         w.write_file(0, b"meta_new_empty", b"")
@@ -366,7 +410,17 @@ def check_save_order(trace, w):
     return None
 
 
+def extra(res, ctx):
+    """(A3) coverage-guided campaign against the loader, after the Hypothesis workers have finished"""
+    cfuzz.campaign(res, ctx, PID, 30 if ctx.tier == "quick" else 900, ctx.seed)
+
+
 def run_case(case, ctx):
+    if case.get("kind") == "fuzz":
+        ok, why = cfuzz.replay(ctx, case)
+        if ok is None:
+            return Outcome(ok=True, inconclusive=True, why=why)
+        return Outcome(ok=ok, why=why, nontrivial=True, classes=["fuzz replay"])
     if case["kind"] == "synth" and case["part"] == "A":
         c, shape = c10.synth_model(case["seed"], case["cfgt"])
         cfg = default_cfg(ndisks=shape["ndisks"], levels=shape["levels"], bs_kib=shape["bs_kib"], hashsize=shape["hashsize"], splits=shape["nsplits"], content=["par"])
